@@ -206,6 +206,62 @@ func CobraTree(pkg *ssa.Package, fns []*ssa.Function) *Tree {
 						t.Unresolved = append(t.Unresolved, "flag registration on an unresolved flag set in "+fn.String())
 						return
 					}
+					// a registration helper: func addFlags(cmd *cobra.Command) { cmd.Flags()... }
+					// registers on every command it is called with
+					if cmdVar == "" {
+						if fsCall, isCall := args[0].(*ssa.Call); isCall {
+							if par, isPar := fsCall.Common().Args[0].(*ssa.Parameter); isPar && par.Parent() == fn {
+								idx := -1
+								for i, q := range fn.Params {
+									if q == par {
+										idx = i
+									}
+								}
+								var targets []string
+								resolved := idx >= 0
+								for _, caller := range fns {
+									if !inPkg(caller) {
+										continue
+									}
+									ssau.ForEachInstr(caller, false, func(in2 ssa.Instruction) {
+										hc, ok := in2.(*ssa.Call)
+										if !ok || hc.Common().StaticCallee() != fn || idx < 0 || idx >= len(hc.Common().Args) {
+											return
+										}
+										if g := globalOf(hc.Common().Args[idx]); g != "" {
+											targets = append(targets, g)
+										} else {
+											resolved = false
+										}
+									})
+								}
+								if !resolved || len(targets) == 0 {
+									t.Unresolved = append(t.Unresolved, "flag registration helper "+fn.String()+" called with an unresolved command")
+									return
+								}
+								for _, tv := range targets {
+									f := Flag{Cmd: tv, Persistent: pers, Kind: kind, Pos: x.Pos(), ConstName: true}
+									var isc bool
+									f.Name, isc = ssau.ConstString(args[ni])
+									if !isc {
+										f.ConstName = false
+									}
+									if si >= 0 && si < len(args) {
+										f.Short, isc = ssau.ConstString(args[si])
+										if !isc {
+											f.ConstName = false
+										}
+									}
+									if c := t.Cmds[tv]; c != nil {
+										c.Flags = append(c.Flags, f)
+									} else {
+										t.Unresolved = append(t.Unresolved, "flag on unknown command variable "+tv)
+									}
+								}
+								return
+							}
+						}
+					}
 					f := Flag{Cmd: cmdVar, Persistent: pers, Kind: kind, Pos: x.Pos(), ConstName: true}
 					var isc bool
 					f.Name, isc = ssau.ConstString(args[ni])
